@@ -76,6 +76,12 @@ class ShelleyMarryMetadata(ArrayCBORSerializable):
         default=None, metadata={"object_hook": list_hook(NativeScript)}
     )
 
+    def __post_init__(self):
+        # On the wire this is [ metadata, [* native_script] ]: no scripts is the empty list, not null
+        # (null was written for None, and the result could not be decoded again)
+        if self.native_scripts is None:
+            self.native_scripts = []
+
 
 @dataclass
 class AlonzoMetadata(MapCBORSerializable):
